@@ -442,6 +442,20 @@ func (e *Env) callContract(fc *FuncContract, key string, sig *types.Signature, r
 		}
 	}
 
+	pctx := &specCtx{e: e, names: names, bound: map[string]*Term{}, pkg: calleePkg}
+	// preconditions
+	for _, cl := range fc.Clauses {
+		if cl.Kind != "requires" {
+			continue
+		}
+		t := pctx.boolTerm(cl.Expr)
+		e.assert(t, cname, fmt.Sprintf("requires%d", cl.Ord), cl.Tags, "precondition of "+short+": "+cl.Text, e.w.pos(pos))
+	}
+	// implicit invariants of the callee's parameters
+	e.autoInv(key, sig, actuals, nil, func(cl *Clause, t *Term, what string) {
+		e.assert(t, cname, fmt.Sprintf("inv.%s.%d", what, cl.Ord), cl.Tags, "type invariant on entry of "+short+": "+cl.Text, e.w.pos(pos))
+	})
+
 	if fc.Pure {
 		var ts []*Term
 		for _, a := range actuals {
@@ -464,20 +478,6 @@ func (e *Env) callContract(fc *FuncContract, key string, sig *types.Signature, r
 		}
 		return res
 	}
-
-	pctx := &specCtx{e: e, names: names, bound: map[string]*Term{}, pkg: calleePkg}
-	// preconditions
-	for _, cl := range fc.Clauses {
-		if cl.Kind != "requires" {
-			continue
-		}
-		t := pctx.boolTerm(cl.Expr)
-		e.assert(t, cname, fmt.Sprintf("requires%d", cl.Ord), cl.Tags, "precondition of "+short+": "+cl.Text, e.w.pos(pos))
-	}
-	// implicit invariants of the callee's parameters
-	e.autoInv(key, sig, actuals, nil, func(cl *Clause, t *Term, what string) {
-		e.assert(t, cname, fmt.Sprintf("inv.%s.%d", what, cl.Ord), cl.Tags, "type invariant on entry of "+short+": "+cl.Text, e.w.pos(pos))
-	})
 
 	// effects
 	ms := e.modSpecOf(fc, key, sig, actuals, pctx)
